@@ -34,9 +34,9 @@ Cases ==
       [] Family = "setget" -> {[k |-> "setget", h |-> h] : h \in UNION {[1..n -> SetOps] : n \in 1..MaxT}}
       [] Family = "convert" -> {x \in {[k |-> "convert", toSSE |-> d, headParts |-> hp, removeParallax |-> rp, calcBounds |-> cb, fixBSX |-> fb, fixShader |-> fs,
                                         skinned |-> sk, colors |-> co, strips |-> st, parts |-> pa, dupNames |-> dn, manyBones |-> mb, odd |-> od] :
-                                            d, hp, rp, cb, fb, fs, sk, co, st, pa, dn, mb \in BOOLEAN, od \in {"", "rootLater", "uncovered"}} :
+                                            d, hp, rp, cb, fb, fs, sk, co, st, pa, dn, mb \in BOOLEAN, od \in {"", "rootLater", "uncovered", "sharedData"}} :
                                     \* odd: the file stores a data block in front of its root / a skinned shape has triangles its partitions do
-                                    \* not list (geometry edited without a partition rebuild)
+                                    \* not list (geometry edited without a partition rebuild) / two shapes share one geometry data block
                                     /\ (x.manyBones => (x.skinned /\ ~x.headParts /\ ~x.dupNames /\ ~x.strips))
                                     /\ (x.odd # "" => (x.toSSE /\ ~x.headParts /\ ~x.dupNames /\ ~x.strips /\ ~x.manyBones /\ ~x.removeParallax /\ ~x.fixBSX))
                                     /\ (x.odd = "uncovered" => x.skinned)}
